@@ -70,6 +70,9 @@ type Object struct {
 	Type  types.Type
 	Entry bool // existed at function entry (parameter-reachable)
 	Global bool
+	Escaped    bool
+	Unmodelled bool       // slice of aggregates whose contents are not modelled: loads give fresh values
+	ElemType   types.Type // element type of an unmodelled slice
 	Root  string
 }
 
@@ -85,6 +88,14 @@ type State struct {
 	srcVar map[string]Value // source-level variable name -> current value (for register vars) or *PtrV (for addressable)
 	srcAdr map[string]bool
 	envs   []map[ssa.Value]Value
+	defers map[int][]*deferredCall // by env depth
+}
+
+type deferredCall struct {
+	cc   *ssa.CallCommon
+	site ssa.Instruction
+	fnv  Value
+	args []Value
 }
 
 func (s *State) clone() *State {
@@ -100,6 +111,12 @@ func (s *State) clone() *State {
 	}
 	for k, v := range s.srcAdr {
 		n.srcAdr[k] = v
+	}
+	if len(s.defers) > 0 {
+		n.defers = map[int][]*deferredCall{}
+		for k, v := range s.defers {
+			n.defers[k] = append([]*deferredCall(nil), v...)
+		}
 	}
 	n.envs = append([]map[ssa.Value]Value(nil), s.envs...)
 	if k := len(n.envs); k > 0 {
